@@ -1,19 +1,22 @@
-//! Correspondence of the list machinery of `src/lists.rs` (`write_list`, `definitive_tactic`,
-//! `needs_trailing_separator`, `total_item_width`) and of the comment rewriter it calls
-//! (`rewrite_comment` under normalize_comments = wrap_comments = false) with the Lean model
-//! `RF/Model/Lists.lean` / `RF/Model/ListsRc.lean` (driver `RF/Driver/Lists.lean`), through
-//! `verif_hooks::lists`; plus three Lean oracles that judge the output of the real `write_list`
-//! (`lists.oracle.content`: the non-blank characters are exactly items, comments and the separators the
-//! specification demands, in order; `lists.oracle.items`; `lists.oracle.comments`).
+//! Correspondence of the list machinery of `src/lists.rs` with the Lean models `RF/Model/Lists.lean`
+//! (`write_list`, `definitive_tactic`, `needs_trailing_separator`, `total_item_width`), `RF/Model/ListsRc.lean`
+//! (`rewrite_comment` under normalize_comments = wrap_comments = false: `identify_comment`,
+//! `light_rewrite_comment`, `trim_left_preserve_layout`), `RF/Model/ListsItemize.lean` (`ListItems::next`,
+//! `extract_pre_comment`, `extract_post_comment`, `get_comment_end`, `has_extra_newline`) and
+//! `RF/Model/ListsStructLit.lean` (`struct_lit_shape`, `struct_lit_tactic`, `shape_for_tactic`,
+//! `struct_lit_formatting`); driver `RF/Driver/Lists.lean`, hooks `verif_hooks::list_write`.
+//! Plus four Lean oracles that judge the output of the real code (`lists.oracle.content`: the non-blank
+//! characters of `write_list`'s result are exactly items, comments and the separators the specification
+//! demands, in order; `lists.oracle.items`; `lists.oracle.comments`; `lists.oracle.gaps`: the comments of
+//! every gap between list elements are handed on by the itemizer, completely and in order).
 //!
-//! Domain.  Characters: printable ASCII, blank and `\n` (the model measures widths in characters).
-//! Families: (a) every formatting (6 tactics x 4 separators x 3 trailing x 2 places x widths x indents x
-//! the four flags) on a fixed set of item lists; (b) every list of 0..=3 items over a small vocabulary
-//! (item strings incl. multi-line ones, pre/post comments in line and block style, both pre-comment
-//! styles, new_lines) on a fixed set of formattings (2 items exhaustively, 3 items over a reduced
-//! vocabulary); (c) random larger lists (0..=8 items, generated strings and comments, random shapes).
-//! A comment outside the rewriter model (block comment with a bare line) is never used: candidates are
-//! filtered through the model (`lists.rc` answers `unsupported`) before any case is built.
+//! Domain.  Characters: printable ASCII, blank, tab (indentation) and `\n` (the models count widths and
+//! offsets in characters).  Entry points: `cases` (write/tactic/rewriter), `itemize_cases`,
+//! `struct_lit_cases`.  Families of `cases`: (a) every formatting (6 tactics x 4 separators x 3 trailing
+//! x 2 places x widths x indents x the four flags) on a fixed set of item lists; (b) every list of 0..=3
+//! items over a small vocabulary (item strings incl. multi-line ones, pre/post comments in line and block
+//! style incl. bare-line block comments, both pre-comment styles, new_lines) on a fixed set of formattings;
+//! (c) random larger lists (0..=8 items, generated strings and comments, random shapes).
 use rustfmt_nightly::verif_hooks::list_write as hl;
 use rustfmt_nightly::Config;
 
